@@ -650,6 +650,11 @@ theorem applicable_none_iff (stmts : List Stmt) (repo : Text) :
         · cases hh
         · exact absurd hh (h s' hs').1
 
+theorem selected_some (stmts : List Stmt) (repo : Text) (ok : Bool) (s : Stmt)
+    (h : selected stmts repo ok = some s) : ok = true ∧ applicable stmts repo = some s := by
+  unfold selected at h
+  cases ok <;> simp_all
+
 /-! ### the whole property -/
 
 theorem nodupB_iff (l : List Text) : nodupB l = true ↔ l.Nodup := by
@@ -680,7 +685,7 @@ theorem authenticity_log (w : World) (scheme : Scheme) (chain : List CertId) (l 
 policy document, every trust store list of any length, both schemes -/
 theorem model_holds (i : Input) : Holds i (run i) = true := by
   unfold Holds clauses run
-  cases happ : applicable i.statements i.repo with
+  cases happ : selected i.statements i.repo i.refOk with
   | none => simp [Clauses.holds]
   | some s =>
     have hiff := auth_pass_iff (lookup i.world) i.scheme i.chain s.trustStores
@@ -881,13 +886,13 @@ document applies; some certificate of the chain is held by a store of the world 
 one the scheme requires and whose `type:name` is in THAT statement's list; and every store of that
 type the statement lists loaded -/
 theorem run_pass_sound (i : Input) (h : (run i).result = .pass) :
-    ∃ s, applicable i.statements i.repo = some s ∧ s ∈ i.statements ∧
+    i.refOk = true ∧ ∃ s, applicable i.statements i.repo = some s ∧ s ∈ i.statements ∧
       (∃ c ∈ i.chain, ∃ st ∈ i.world, st.ty = requiredType i.scheme ∧ st.ok = true ∧ c ∈ st.certs ∧
           entry st.ty st.name ∈ s.trustStores) ∧
       (∀ n, entry (requiredType i.scheme) n ∈ s.trustStores →
           ∃ cs, lookup i.world (requiredType i.scheme) n = some cs) := by
   unfold run at h
-  cases happ : applicable i.statements i.repo with
+  cases happ : selected i.statements i.repo i.refOk with
   | none => simp [happ] at h
   | some s =>
     simp only [happ] at h
@@ -895,14 +900,37 @@ theorem run_pass_sound (i : Input) (h : (run i).result = .pass) :
       cases hb : (authenticity (lookup i.world) i.scheme i.chain s.trustStores).1 <;> simp [hb] at h ⊢
     obtain ⟨⟨c, hc, n, cs, h1, h2, h3⟩, h4, _⟩ := auth_pass_sound _ _ _ _ hp
     obtain ⟨st, hst, a, b, d, e⟩ := lookup_some _ _ _ _ h2
-    refine ⟨s, rfl, (applicable_sound _ _ _ happ).1, ⟨c, hc, st, hst, a, d, by rw [e]; exact h3, by rw [a, b]; exact h1⟩, h4⟩
+    obtain ⟨hok, happ'⟩ := selected_some _ _ _ _ happ
+    refine ⟨hok, s, happ', (applicable_sound _ _ _ happ').1, ⟨c, hc, st, hst, a, d, by rw [e]; exact h3, by rw [a, b]; exact h1⟩, h4⟩
+
+/-- **run_refused_reference**: a reference that is refused (not `<scope-format path>@<digest>`)
+runs under no statement: nothing is loaded, nothing is accepted - in particular it does not fall
+under the wildcard statement -/
+theorem run_refused_reference (i : Input) (h : i.refOk = false) :
+    run i = { result := .noPolicy, calls := [], accepted := false } := by
+  unfold run selected; simp [h]
+
+/-- **exact_spelling**: the statement applied names the artifact path exactly as spelled, or is the
+wildcard statement while NO statement names that spelling: another spelling of "the same" registry
+(an alias, another letter case, a default port) in a statement's scopes plays no role -/
+theorem run_statement_by_exact_spelling (i : Input) (s : Stmt)
+    (h : selected i.statements i.repo i.refOk = some s) :
+    (i.repo ∈ s.scopes ∧ wildcardScope ∉ s.scopes) ∨
+    (wildcardScope ∈ s.scopes ∧ ∀ s' ∈ i.statements, i.repo ∈ s'.scopes → wildcardScope ∈ s'.scopes) := by
+  obtain ⟨_, happ⟩ := selected_some _ _ _ _ h
+  rcases (applicable_sound _ _ _ happ).2 with ⟨a, b⟩ | ⟨a, b⟩
+  · exact .inl ⟨b, a⟩
+  · refine .inr ⟨a, fun s' hs' hr => ?_⟩
+    rcases b s' hs' with x | x
+    · exact x
+    · exact absurd hr x
 
 /-- **run_accepted_only_if**: the signature is accepted only if the authenticity result passed or
 the applicable statement merely logs authenticity (level audit, or an override) -/
 theorem run_accepted_only_if (i : Input) (h : (run i).accepted = true) :
-    (run i).result = .pass ∨ ∃ s, applicable i.statements i.repo = some s ∧ s.logged = true := by
+    (run i).result = .pass ∨ ∃ s, selected i.statements i.repo i.refOk = some s ∧ s.logged = true := by
   unfold run at h ⊢
-  cases happ : applicable i.statements i.repo with
+  cases happ : selected i.statements i.repo i.refOk with
   | none => simp [happ] at h
   | some s =>
     simp only [happ] at h ⊢
@@ -915,10 +943,10 @@ theorem run_accepted_only_if (i : Input) (h : (run i).accepted = true) :
 passes AND the identity verdict is good: a good identity verdict (native, or a verification
 plugin answering success) never repairs a trust store failure, whatever the action -/
 theorem run_pass_iff (i : Input) :
-    (run i).result = .pass ↔ ∃ s, applicable i.statements i.repo = some s ∧
+    (run i).result = .pass ↔ ∃ s, selected i.statements i.repo i.refOk = some s ∧
       (authenticity (lookup i.world) i.scheme i.chain s.trustStores).1 = true ∧ i.identityOk = true := by
   unfold run
-  cases happ : applicable i.statements i.repo with
+  cases happ : selected i.statements i.repo i.refOk with
   | none => simp
   | some s =>
     cases hb : (authenticity (lookup i.world) i.scheme i.chain s.trustStores).1 <;>
@@ -928,13 +956,13 @@ theorem run_pass_iff (i : Input) :
 theorem run_calls_independent_of_identity (i : Input) (b : Bool) (p : String) :
     (run { i with identityOk := b, plugin := p }).calls = (run i).calls := by
   unfold run
-  cases happ : applicable i.statements i.repo <;> simp [happ]
+  cases happ : selected i.statements i.repo i.refOk <;> simp [happ]
 
 /-- **run_unlisted_irrelevant**: changing the world anywhere but at the stores `(required type, n)`
 with `type:n` listed by the applicable statement - that is: in stores of another type, in stores
 no statement lists, in stores only OTHER statements list - changes neither result nor call log -/
 theorem run_unlisted_irrelevant (i : Input) (world' : List Store) (s : Stmt)
-    (happ : applicable i.statements i.repo = some s)
+    (happ : selected i.statements i.repo i.refOk = some s)
     (h : ∀ n, entry (requiredType i.scheme) n ∈ s.trustStores →
       lookup i.world (requiredType i.scheme) n = lookup world' (requiredType i.scheme) n) :
     run { i with world := world' } = run i := by
@@ -945,7 +973,7 @@ theorem run_unlisted_irrelevant (i : Input) (world' : List Store) (s : Stmt)
 /-- **run_other_statements_irrelevant**: two documents whose applicable statements carry the same
 list and level behave alike, whatever their other statements list -/
 theorem run_other_statements_irrelevant (i : Input) (stmts' : List Stmt) (s s' : Stmt)
-    (happ : applicable i.statements i.repo = some s) (happ' : applicable stmts' i.repo = some s')
+    (happ : selected i.statements i.repo i.refOk = some s) (happ' : selected stmts' i.repo i.refOk = some s')
     (hl : s'.trustStores = s.trustStores) (hv : s'.level = s.level) (ha : s'.authLog = s.authLog) :
     run { i with statements := stmts' } = run i := by
   unfold run
@@ -961,9 +989,9 @@ theorem run_history_irrelevant (i : Input) (h : List String) (b f k : String) :
 /-- hence any two verifications that differ only in their history are predicted alike -/
 theorem run_eq_of_same_call (i j : Input) (hs : i.scheme = j.scheme) (hc : i.chain = j.chain)
     (hst : i.statements = j.statements) (hr : i.repo = j.repo) (hw : i.world = j.world)
-    (hi : i.identityOk = j.identityOk) :
+    (hi : i.identityOk = j.identityOk) (hk : i.refOk = j.refOk) :
     run i = run j := by
-  unfold run; rw [hs, hc, hst, hr, hw, hi]
+  unfold run; rw [hs, hc, hst, hr, hw, hi, hk]
 
 /-! ### non-vacuity -/
 
@@ -980,7 +1008,7 @@ def exInput (scheme : Scheme) (l : List String) : Input :=
   { scheme := scheme, chain := [0, 1, 2], repo := "reg.example/a".toList, world := exWorld,
     statements := [ ⟨["reg.example/a".toList], l.map String.toList, .strict, false⟩,
                     ⟨["*".toList], ["ca:alpha".toList, "signingAuthority:alpha".toList], .strict, false⟩ ],
-    identityOk := true, plugin := "none", backend := "mem", format := "jws", kind := "oci", history := [] }
+    refOk := true, identityOk := true, plugin := "none", backend := "mem", format := "jws", kind := "oci", history := [] }
 
 /-- trusted: the root is in the listed ca store -/
 example : run (exInput .x509 ["ca:gamma", "tsa:alpha", "ca:alpha", "ca:gamma"]) =
